@@ -752,18 +752,20 @@ func checkC18(c *Ctx, r *Report) {
 	}
 	// R2: retry timer callbacks: functions that dynamically call a retry callback field
 	n2 := 0
+	expFn, expSite, _, expHelpers := c.retryExpiry()
 	for _, fn := range c.repoFuncs("transactions") {
 		var cbCall ssa.Instruction
-		allInstrs(fn, func(i ssa.Instruction) {
-			if f, ok := dynCallOfField(i); ok && strings.Contains(strings.ToLower(f), "retry") {
-				cbCall = i
-			}
-		})
+		if fn == expFn {
+			cbCall = expSite
+		}
 		if cbCall == nil {
 			continue
 		}
 		n2++
 		r.fn(fn)
+		for _, h := range expHelpers {
+			r.fn(h)
+		}
 		key := fnKey(fn) + ":retry-callback"
 		held := li.HeldAt(cbCall)
 		sel, gated := notDoneGuard(guardsOf(cbCall.Block()))
@@ -1191,16 +1193,7 @@ func (c *Ctx) txExplorer() *explorer {
 
 func checkC19(c *Ctx, r *Report) {
 	// the retry timer callback: function of package transactions that calls a retry callback field
-	var timeoutFn *ssa.Function
-	cbField := ""
-	for _, fn := range c.repoFuncs("transactions") {
-		allInstrs(fn, func(i ssa.Instruction) {
-			if f, ok := dynCallOfField(i); ok && strings.Contains(strings.ToLower(f), "retry") {
-				timeoutFn = fn
-				cbField = f
-			}
-		})
-	}
+	timeoutFn, expSite, cbField, expHelpers := c.retryExpiry()
 	if timeoutFn == nil {
 		r.undecided("R1", "retry-timer-callback", "-", "no function invoking a retry callback found")
 		return
@@ -1208,8 +1201,11 @@ func checkC19(c *Ctx, r *Report) {
 	r.fn(timeoutFn)
 	// R4: an expiry that races with completion does not count as a retry: the
 	// callback is only reachable through the not-yet-done edge (shared with C18-R2)
+	for _, h := range expHelpers {
+		r.fn(h)
+	}
 	allInstrs(timeoutFn, func(i ssa.Instruction) {
-		if f, ok := dynCallOfField(i); ok && f == cbField {
+		if i == expSite {
 			if _, gated := notDoneGuard(guardsOf(i.Block())); gated {
 				r.ok("R4", fnKey(timeoutFn)+":no-retry-after-completion", c.instrPos(i), "retry callback only reachable through the not-yet-done edge of a receive on Done()")
 			} else {
@@ -1219,7 +1215,8 @@ func checkC19(c *Ctx, r *Report) {
 	})
 	// counter and limit cells: the fields compared in the callback
 	var numCell, cntCell string
-	allInstrs(timeoutFn, func(i ssa.Instruction) {
+	expFns := append([]*ssa.Function{timeoutFn}, expHelpers...)
+	allInstrsOf(expFns, func(i ssa.Instruction) {
 		b, ok := i.(*ssa.BinOp)
 		if !ok {
 			return
@@ -1252,7 +1249,7 @@ func checkC19(c *Ctx, r *Report) {
 	}
 	// which one is incremented?
 	incr := map[string]bool{}
-	allInstrs(timeoutFn, func(i ssa.Instruction) {
+	allInstrsOf(expFns, func(i ssa.Instruction) {
 		if s, ok := i.(*ssa.Store); ok {
 			if fa, ok := s.Addr.(*ssa.FieldAddr); ok {
 				incr[fieldCell(fa)] = true
@@ -1352,7 +1349,7 @@ func checkC19(c *Ctx, r *Report) {
 				}
 			}
 		})
-		allInstrs(timeoutFn, func(i ssa.Instruction) {
+		allInstrsOf(expFns, func(i ssa.Instruction) {
 			if s, ok := i.(*ssa.Store); ok {
 				if fa, ok := s.Addr.(*ssa.FieldAddr); ok && fieldCell(fa) == numCell {
 					incHeld = li.HeldAt(i)
@@ -1521,4 +1518,43 @@ func (c *Ctx) handRolledTransactions(rel string) []string {
 	}
 	sort.Strings(out)
 	return out
+}
+
+// retryExpiry locates the retry transaction's timer-expiry function: the function of package transactions from which
+// the retry callback field is called - directly, or through private helpers that have exactly one static call site in
+// the package (the expiry split into steps). site is the instruction IN fn that leads to the callback (the dynamic
+// call itself, or the call of the helper); helpers lists the functions in between.
+func (c *Ctx) retryExpiry() (fn *ssa.Function, site ssa.Instruction, cbField string, helpers []*ssa.Function) {
+	for _, f := range c.repoFuncs("transactions") {
+		allInstrs(f, func(i ssa.Instruction) {
+			if fl, ok := dynCallOfField(i); ok && strings.Contains(strings.ToLower(fl), "retry") {
+				fn, site, cbField = f, i, fl
+			}
+		})
+	}
+	for d := 0; d < 3 && fn != nil; d++ {
+		if _, gated := notDoneGuard(guardsOf(site.Block())); gated {
+			break
+		}
+		var callers []ssa.Instruction
+		for _, g := range c.repoFuncs("transactions") {
+			allInstrs(g, func(i ssa.Instruction) {
+				if ci, ok := i.(ssa.CallInstruction); ok && staticCallee(ci.Common()) == fn {
+					callers = append(callers, i)
+				}
+			})
+		}
+		if len(callers) != 1 {
+			break
+		}
+		helpers = append(helpers, fn)
+		fn, site = callers[0].Parent(), callers[0]
+	}
+	return
+}
+
+func allInstrsOf(fs []*ssa.Function, fn func(ssa.Instruction)) {
+	for _, f := range fs {
+		allInstrs(f, fn)
+	}
 }
